@@ -415,10 +415,12 @@ pub fn run(o: &mut Out, tier: &str, seed: u64) {
                   if k % 8 == 1 { bin(&mut iso, o, "address_bytes", &body, false); } }
           } } }
     // (8) truncation at EVERY position of a block, a prefix, a structured extra and of count-attacked encodings
-    { let blk = gen::block(&mut r, 2); let bb = serialize(&blk); for k in 0..bb.len() { bin(&mut iso, o, "block", &bb[..k], false); }
+    { // every position of a short encoding; for a long one (a miner transaction with range signatures) the first 300, the last 100 and 200 evenly spaced cuts
+      let cuts = |len: usize| -> Vec<usize> { if len <= 600 { (0..len).collect() } else { let mut v: Vec<usize> = (0..300).chain((0..200).map(|i| 300 + i * (len - 400) / 200)).chain(len - 100..len).collect(); v.dedup(); v } };
+      let blk = gen::block(&mut r, 2); let bb = serialize(&blk); for k in cuts(bb.len()) { bin(&mut iso, o, "block", &bb[..k], false); }
       let sh = gen::Shape { vary_rings: true, version: 2, nin: 2, ring: 2, nout: 2, coinbase_first: false, all_coinbase: false, rct: monero::util::ringct::RctType::Clsag, nbp: 1, extra_len: 0 };
       let mut tx = gen::tx_of(&mut r, &sh); let ex = gen::structured_extra(&mut r, 2); tx.prefix.extra = RawExtraField(ex.clone());
-      let pb = serialize(&tx.prefix); for k in 0..pb.len() { bin(&mut iso, o, "prefix", &pb[..k], false); }
+      let pb = serialize(&tx.prefix); for k in cuts(pb.len()) { bin(&mut iso, o, "prefix", &pb[..k], false); }
       for k in 0..=ex.len() { bin(&mut iso, o, "extra", &ex[..k], k == ex.len()); }
       let full = serialize(&tx); let attacked = count_attacks_everywhere(&full[..full.len().min(120)], &mut r);
       for _ in 0..(if thorough { 12 } else { 3 }) { let m = r.pick(&attacked).clone(); let mut m2 = m.clone(); m2.extend_from_slice(&full[full.len().min(120)..]);
